@@ -616,6 +616,22 @@ theorem decl_role_exact (ctx : List Str) (pos : NamePos) (toks : Str) (recv : Bo
     simp +decide at hl
     exact varClass_ref_of _ (by simp +decide [classVar3]) (forward_false _ (Or.inl (by rw [f3]; simp only [fe3_3]; decide))) hl
       (alt_false_of_third _ (by simp) (by rw [f6]; intro t ht; simp only [fe3_3]; simp at ht; rcases ht with rfl | rfl <;> decide))
+  | typeAliasTarget =>
+    simp only [classAt, NamePos.suffix]
+    have hl := local3 ctx c!"class_assign" c!"assign_namelist" toks recv
+    simp +decide at hl
+    have hfw := forward_false ⟨ctx ++ [c!"class_assign", c!"assign_namelist", c!"var"], toks, recv⟩
+      (Or.inl (by rw [f3]; simp only [fe3_3]; decide))
+    have ha := alt3 ctx c!"class_assign" toks recv (by rw [f6]; simp)
+    simp +decide [varClass, classVar3, hl, hfw, ha, roleOf, NamePos.pyRole]
+  | typeVarTarget =>
+    simp only [classAt, NamePos.suffix]
+    have hl := local3 ctx c!"template_assign" c!"assign_namelist" toks recv
+    simp +decide at hl
+    have hfw := forward_false ⟨ctx ++ [c!"template_assign", c!"assign_namelist", c!"var"], toks, recv⟩
+      (Or.inl (by rw [f3]; simp only [fe3_3]; decide))
+    have ha := alt3 ctx c!"template_assign" toks recv (by rw [f6]; simp)
+    simp +decide [varClass, classVar3, hl, hfw, ha, roleOf, NamePos.pyRole]
   | valueOf stmt =>
     have hs : stmt ≠ c!"assign_namelist" := by
       simp only [NamePos.wf, f14] at hwf
@@ -637,6 +653,61 @@ theorem decl_role_exact (ctx : List Str) (pos : NamePos) (toks : Str) (recv : Bo
     exact varClass_ref_of _ hc (forward_false _ (Or.inr (by rw [f4]; simp only [fe3_2]; simpa using hs))) hl
       (alt_false_of_parent _ (by rw [f5]; simp only [NameFeat.parentTag, fe3_2]; simpa using hs))
 
+/-- **The positions are paths of the grammar.** Every fixed path suffix `decl_role_exact` speaks about is a chain of
+    parent / child tree tags of grammar.lark (relation generated from lark's compiled rules: `_rule`s inlined, `?rule`s
+    replaced by a single child, aliases renaming the tree). -/
+theorem namepos_in_grammar : ∀ pos ∈ fixedPositions, pathInGrammar pos.suffix = true := by
+  decide +kernel
+
+/-- **No position is missing.** In the trees of grammar.lark: (1) a `var` below a target list `assign_namelist` has one of
+    the seven target positions (plain / annotated / class-variable ×2 / augmented / TypeAlias / TypeVar statement), any other
+    `var` is a value or expression position; (2) a `name` below `for_namelist` is a `for` or comprehension target;
+    (3) a `name` anywhere else has one of the fixed positions or stands below `var` itself, an import path, a type
+    expression or `raise`. So `decl_role_exact` covers every place the grammar puts a bare identifier. -/
+theorem positions_complete :
+    (∀ g : Str, inGrammar g c!"assign_namelist" = true →
+      ∃ pos ∈ fixedPositions, pos.suffix = [g, c!"assign_namelist", c!"var"])
+    ∧ (∀ g p : Str, inGrammar p c!"var" = true → p ≠ c!"assign_namelist" → (NamePos.inExpr g p).wf = true ∧ (NamePos.valueOf p).wf = true)
+    ∧ (∀ g : Str, inGrammar g c!"for_namelist" = true → ∃ pos ∈ fixedPositions, pos.suffix = [g, c!"for_namelist", c!"name"])
+    ∧ (∀ p : Str, inGrammar p c!"name" = true →
+      p = c!"for_namelist" ∨ p ∈ otherNameParents ∨ ∃ pos ∈ fixedPositions, pos.suffix = [p, c!"name"]) := by
+  have h1 : (parentsOf c!"assign_namelist").all (fun g => fixedPositions.any fun pos => pos.suffix == [g, c!"assign_namelist", c!"var"]) = true := by
+    decide +kernel
+  have h3 : (parentsOf c!"for_namelist").all (fun g => fixedPositions.any fun pos => pos.suffix == [g, c!"for_namelist", c!"name"]) = true := by
+    decide +kernel
+  have h4 : (parentsOf c!"name").all (fun p => p == c!"for_namelist" || otherNameParents.contains p ||
+      fixedPositions.any fun pos => pos.suffix == [p, c!"name"]) = true := by
+    decide +kernel
+  refine ⟨?_, ?_, ?_, ?_⟩
+  · intro g hg
+    have := List.all_eq_true.mp h1 g (mem_parentsOf hg)
+    obtain ⟨pos, hp, he⟩ := List.any_eq_true.mp this
+    exact ⟨pos, hp, by simpa using he⟩
+  · intro g p _ hne
+    have f14 := decl_matchers_facts.2.2.2.2.2.2.2.2.2.2.2.2.2
+    simp [NamePos.wf, f14, hne]
+  · intro g hg
+    have := List.all_eq_true.mp h3 g (mem_parentsOf hg)
+    obtain ⟨pos, hp, he⟩ := List.any_eq_true.mp this
+    exact ⟨pos, hp, by simpa using he⟩
+  · intro p hp
+    have := List.all_eq_true.mp h4 p (mem_parentsOf hp)
+    simp only [Bool.or_eq_true, beq_iff_eq, List.contains_iff_mem, List.any_eq_true] at this
+    rcases this with (h | h) | ⟨pos, hpos, he⟩
+    · exact Or.inl h
+    · exact Or.inr (Or.inl h)
+    · exact Or.inr (Or.inr ⟨pos, hpos, he⟩)
+
+/-- the statements that own a target list, and the parents of a `name`, as the grammar has them -/
+theorem grammar_target_statements :
+    parentsOf c!"assign_namelist" = [c!"anno_assign", c!"assign", c!"aug_assign", c!"class_assign", c!"class_var_anno_assign",
+      c!"class_var_assign", c!"template_assign"]
+    ∧ parentsOf c!"for_namelist" = [c!"comp_for", c!"for_stmt"]
+    ∧ parentsOf c!"name" = [c!"argvalue", c!"class_def_raw", c!"dotted_name", c!"except_clause", c!"for_namelist",
+      c!"function_def_raw", c!"getattr", c!"import_as_name", c!"lambdaparams", c!"raise_stmt", c!"typed_getattr", c!"typed_var",
+      c!"typedparam", c!"var", c!"with_item"] := by
+  decide +kernel
+
 /-- non-vacuity: `x = …` in a method body nested in a class in a function declares `x`; `x` inside a call argument of the
     value of a class variable is a use (the round-4 seeded mutation classified it as a declaration) -/
 example :
@@ -646,6 +717,249 @@ example :
         (.inExpr c!"funccall" c!"arguments") c!"x" true) = .ref
     ∧ (NamePos.inExpr c!"funccall" c!"arguments").wf = true := by
   decide +kernel
+
+/-! ### registration order of the candidates of `name` -/
+
+/-- no two of the seven specific candidates of tag `name` accept the same node: each looks at a different parent tag
+    (the three parameter classes at the same one, told apart by the word) -/
+theorem name_disjoint (f : NameFeat) (c c' : NameClass) (hc : c ∈ nameCandidates) (hc' : c' ∈ nameCandidates)
+    (h : acceptsName c f = true) (h' : acceptsName c' f = true) : c = c' := by
+  obtain ⟨_, _, _, _, _, _, _, _, _, f10, f11, f12, _⟩ := matcherFacts
+  have hL := local_parent f
+  have hne : Generated.DeclMatchers.clsWord ≠ Generated.DeclMatchers.selfParamWord := by decide
+  simp only [nameCandidates, List.mem_cons, List.mem_nil_iff, or_false] at hc hc'
+  cases hpt : f.parentTag with
+  | none =>
+    rcases hc with rfl | rfl | rfl | rfl | rfl | rfl | rfl <;>
+      simp_all [acceptsName, isArgumentLabel, isParamClass, isParamThis, isParam, inDeclClassType, inDeclImport]
+  | some t =>
+    rcases hc with rfl | rfl | rfl | rfl | rfl | rfl | rfl <;> rcases hc' with rfl | rfl | rfl | rfl | rfl | rfl | rfl <;>
+      first
+      | rfl
+      | (simp only [acceptsName, isArgumentLabel, isParamClass, isParamThis, isParam, inDeclClassType, inDeclImport, hpt, f10, f11, f12,
+          Bool.and_eq_true, beq_iff_eq, Option.some.injEq, List.any_cons, List.any_nil, Bool.or_eq_true, Bool.or_false, Bool.not_eq_true',
+          Bool.or_eq_false_iff] at h h'
+         first
+         | (have := hL h; simp_all; done)
+         | (have := hL h'; simp_all; done)
+         | (have := hL h; rcases h' with rfl | rfl <;> simp_all; done)
+         | (have := hL h'; rcases h with rfl | rfl <;> simp_all; done)
+         | simp_all)
+
+/-- hence the registration order of the seven is immaterial: any order classifies every `name` node like the shipped one -/
+theorem name_order (order : List NameClass) (hall : ∀ c ∈ nameCandidates, c ∈ order) (hsub : ∀ c ∈ order, c ∈ nameCandidates)
+    (f : NameFeat) : firstOfName order f = nameClass f := by
+  have key : ∀ c ∈ nameCandidates, acceptsName c f = true → firstOfName order f = c := by
+    intro c hc hp
+    have := find_first_of_precedes (fun c => acceptsName c f) order c (hall c hc) hp
+      (fun c' hc' hp' hne => absurd (name_disjoint f c' c (hsub c' hc') hc hp' hp) hne)
+    simp [firstOfName, this]
+  unfold nameClass
+  split
+  · next h => exact key _ (by simp [nameCandidates]) (by simpa [acceptsName] using h)
+  · next h1 =>
+    split
+    · next h => exact key _ (by simp [nameCandidates]) (by simpa [acceptsName] using h)
+    · next h2 =>
+      split
+      · next h => exact key _ (by simp [nameCandidates]) (by simpa [acceptsName] using h)
+      · next h3 =>
+        split
+        · next h => exact key _ (by simp [nameCandidates]) (by simpa [acceptsName] using h)
+        · next h4 =>
+          split
+          · next h => exact key _ (by simp [nameCandidates]) (by simpa [acceptsName] using h)
+          · next h5 =>
+            split
+            · next h => exact key _ (by simp [nameCandidates]) (by simpa [acceptsName] using h)
+            · next h6 =>
+              split
+              · next h => exact key _ (by simp [nameCandidates]) (by simpa [acceptsName] using h)
+              · next h7 =>
+                have hnone : order.find? (fun c => acceptsName c f) = none := by
+                  apply find_none_of_all_false
+                  intro c hc
+                  have := hsub c hc
+                  simp only [nameCandidates, List.mem_cons, List.mem_nil_iff, or_false] at this
+                  rcases this with rfl | rfl | rfl | rfl | rfl | rfl | rfl <;> simp_all [acceptsName]
+                simp [firstOfName, hnone]
+
+/-! ### registration order of the candidates of `var` -/
+
+/-- two different candidates of tag `var` accept the same node only if they are one of the seven listed pairs
+    (`varBefore`); all other pairs are disjoint (different statement tag three levels up, or different word) -/
+theorem var_pairs (f : NameFeat) (hv : f.lastTag = some c!"var") (c c' : NameClass) (hc : c ∈ varCandidates) (hc' : c' ∈ varCandidates)
+    (h : acceptsVar c f = true) (h' : acceptsVar c' f = true) (hne : c ≠ c') : (c, c') ∈ varBefore ∨ (c', c) ∈ varBefore := by
+  have h1 := classVar_third f
+  have h2 := forward_third f
+  have h3 := local_third f hv
+  have h4 := alt_third f
+  have hcs : (c!"cls" : Str) ≠ c!"self" := by decide
+  simp only [varCandidates, List.mem_cons, List.mem_nil_iff, or_false] at hc hc'
+  rcases hc with rfl | rfl | rfl | rfl | rfl | rfl <;> rcases hc' with rfl | rfl | rfl | rfl | rfl | rfl <;>
+    first
+    | exact absurd rfl hne
+    | (simp [varBefore]; done)
+    | (simp only [acceptsVar, beq_iff_eq] at h h'
+       first
+       | (have a := h1 h; have b := h2 h'; rcases a with a | a <;> simp_all; done)
+       | (have a := h1 h'; have b := h2 h; rcases a with a | a <;> simp_all; done)
+       | (have a := h1 h; have b := (h3 h').1; rcases a with a | a <;> rcases b with b | b <;> simp_all; done)
+       | (have a := h1 h'; have b := (h3 h).1; rcases a with a | a <;> rcases b with b | b <;> simp_all; done)
+       | (have a := h1 h; have b := h4 h'; rcases a with a | a <;> rcases b with b | b | b <;> simp_all; done)
+       | (have a := h1 h'; have b := h4 h; rcases a with a | a <;> rcases b with b | b | b <;> simp_all; done)
+       | (have a := h2 h; have b := h4 h'; rcases b with b | b | b <;> simp_all; done)
+       | (have a := h2 h'; have b := h4 h; rcases b with b | b | b <;> simp_all; done)
+       | (have a := (h3 h).1; have b := h4 h'; rcases a with a | a <;> rcases b with b | b | b <;> simp_all; done)
+       | (have a := (h3 h').1; have b := h4 h; rcases a with a | a <;> rcases b with b | b | b <;> simp_all; done)
+       | (have a := (h3 h).2; simp_all [isClassOrThis, matcherFacts.2.2.2.2.2.2.2.2.2.2.2.2.1]; done)
+       | (have a := (h3 h').2; simp_all [isClassOrThis, matcherFacts.2.2.2.2.2.2.2.2.2.2.2.2.1]; done)
+       | (simp_all; done))
+
+/-- **The order of the `var` candidates matters exactly on the listed pairs.** Any registration order of the six candidates
+    that keeps the first of each overlapping pair before the second classifies every `var` node like the shipped order. -/
+theorem var_order (order : List NameClass) (hall : ∀ c ∈ varCandidates, c ∈ order) (hsub : ∀ c ∈ order, c ∈ varCandidates)
+    (hresp : ∀ p ∈ varBefore, order.idxOf p.1 < order.idxOf p.2) (f : NameFeat) (hv : f.lastTag = some c!"var") :
+    firstOfVar order f = varClass f := by
+  have key : ∀ c ∈ varCandidates, acceptsVar c f = true →
+      (∀ c' ∈ varCandidates, acceptsVar c' f = true → c' ≠ c → (c, c') ∈ varBefore) → firstOfVar order f = c := by
+    intro c hc hp hfirst
+    have := find_first_of_precedes (fun c => acceptsVar c f) order c (hall c hc) hp
+      (fun c' hc' hp' hne => hresp (c, c') (hfirst c' (hsub c' hc') hp' hne))
+    simp [firstOfVar, this]
+  have pairs := fun c c' hc hc' h h' hne => var_pairs f hv c c' hc hc' h h' hne
+  unfold varClass
+  split
+  · next h =>
+    apply key _ (by simp [varCandidates]) (by simpa [acceptsVar] using h)
+    intro c' hc' hp' hne
+    rcases pairs _ _ (by simp [varCandidates]) hc' (by simpa [acceptsVar] using h) hp' (Ne.symm hne) with hb | hb
+    · exact hb
+    · simp only [varCandidates, List.mem_cons, List.mem_nil_iff, or_false] at hc'
+      rcases hc' with rfl | rfl | rfl | rfl | rfl | rfl <;> simp [varBefore] at hb hne ⊢
+  · next n1 =>
+    split
+    · next h =>
+      apply key _ (by simp [varCandidates]) (by simpa [acceptsVar] using h)
+      intro c' hc' hp' hne
+      rcases pairs _ _ (by simp [varCandidates]) hc' (by simpa [acceptsVar] using h) hp' (Ne.symm hne) with hb | hb
+      · exact hb
+      · simp only [varCandidates, List.mem_cons, List.mem_nil_iff, or_false] at hc'
+        rcases hc' with rfl | rfl | rfl | rfl | rfl | rfl <;> simp [varBefore] at hb hne ⊢
+    · next n2 =>
+      split
+      · next h =>
+        apply key _ (by simp [varCandidates]) (by simpa [acceptsVar] using h)
+        intro c' hc' hp' hne
+        rcases pairs _ _ (by simp [varCandidates]) hc' (by simpa [acceptsVar] using h) hp' (Ne.symm hne) with hb | hb
+        · exact hb
+        · simp only [varCandidates, List.mem_cons, List.mem_nil_iff, or_false] at hc'
+          rcases hc' with rfl | rfl | rfl | rfl | rfl | rfl <;> simp_all [varBefore, acceptsVar]
+      · next n3 =>
+        split
+        · next h =>
+          apply key _ (by simp [varCandidates]) (by simpa [acceptsVar] using h)
+          intro c' hc' hp' hne
+          rcases pairs _ _ (by simp [varCandidates]) hc' (by simpa [acceptsVar] using h) hp' (Ne.symm hne) with hb | hb
+          · exact hb
+          · simp only [varCandidates, List.mem_cons, List.mem_nil_iff, or_false] at hc'
+            rcases hc' with rfl | rfl | rfl | rfl | rfl | rfl <;> simp_all [varBefore, acceptsVar]
+        · next n4 =>
+          split
+          · next h =>
+            apply key _ (by simp [varCandidates]) (by simpa [acceptsVar] using h)
+            intro c' hc' hp' hne
+            rcases pairs _ _ (by simp [varCandidates]) hc' (by simpa [acceptsVar] using h) hp' (Ne.symm hne) with hb | hb
+            · exact hb
+            · simp only [varCandidates, List.mem_cons, List.mem_nil_iff, or_false] at hc'
+              rcases hc' with rfl | rfl | rfl | rfl | rfl | rfl <;> simp_all [varBefore, acceptsVar]
+          · next n5 =>
+            split
+            · next h =>
+              apply key _ (by simp [varCandidates]) (by simpa [acceptsVar] using h)
+              intro c' hc' hp' hne
+              rcases pairs _ _ (by simp [varCandidates]) hc' (by simpa [acceptsVar] using h) hp' (Ne.symm hne) with hb | hb
+              · exact hb
+              · simp only [varCandidates, List.mem_cons, List.mem_nil_iff, or_false] at hc'
+                rcases hc' with rfl | rfl | rfl | rfl | rfl | rfl <;> simp_all [varBefore, acceptsVar]
+            · next n6 =>
+              have hnone : order.find? (fun c => acceptsVar c f) = none := by
+                apply find_none_of_all_false
+                intro c hc
+                have := hsub c hc
+                simp only [varCandidates, List.mem_cons, List.mem_nil_iff, or_false] at this
+                rcases this with rfl | rfl | rfl | rfl | rfl | rfl <;> simp_all [acceptsVar]
+              simp [firstOfVar, hnone]
+
+/-- each listed pair does overlap: a node both accept, on which the reversed order gives the other class -/
+theorem var_overlaps :
+    varBefore.all (fun p =>
+      [(⟨[c!"file_input", c!"class_def", c!"class_def_raw", c!"block", c!"anno_assign", c!"assign_namelist", c!"var"], c!"x", true⟩ : NameFeat),
+       ⟨[c!"file_input", c!"class_def", c!"class_def_raw", c!"block", c!"class_var_assign", c!"assign_namelist", c!"var"], c!"cls", true⟩,
+       ⟨[c!"file_input", c!"class_def", c!"class_def_raw", c!"block", c!"class_var_assign", c!"assign_namelist", c!"var"], c!"self", true⟩,
+       ⟨[c!"file_input", c!"class_def", c!"class_def_raw", c!"block", c!"anno_assign", c!"assign_namelist", c!"var"], c!"cls", true⟩,
+       ⟨[c!"file_input", c!"class_def", c!"class_def_raw", c!"block", c!"anno_assign", c!"assign_namelist", c!"var"], c!"self", true⟩,
+       ⟨[c!"file_input", c!"class_assign", c!"assign_namelist", c!"var"], c!"cls", true⟩,
+       ⟨[c!"file_input", c!"class_assign", c!"assign_namelist", c!"var"], c!"self", true⟩].any fun f =>
+        acceptsVar p.1 f && acceptsVar p.2 f && firstOfVar [p.2, p.1] f != firstOfVar [p.1, p.2] f) = true := by
+  decide +kernel
+
+/-- the registered order of the `var` candidates (generated table) respects every listed pair -/
+theorem var_order_generated :
+    ((rowOf c!"var").map fun r => r.map (·.1)) = some ((varCandidates ++ [NameClass.var]).map NameClass.name)
+    ∧ varBefore.all (fun p => varCandidates.idxOf p.1 < varCandidates.idxOf p.2) = true := by
+  decide +kernel
+
+/-- the registered candidates of `name` are the seven specific classes and then the fallback `Var` -/
+theorem name_order_generated :
+    ((rowOf c!"name").map fun r => r.map (·.1)) = some ((nameCandidates ++ [NameClass.var]).map NameClass.name) := by
+  decide +kernel
+
+/-! ### the remaining multi-candidate tags -/
+
+/-- **An always-accepting class is never registered before another candidate**: in every row of the generated resolver
+    table the classes that inherit `Node.match_feature` (always true) or are `CustomType` (whose own `match_feature` returns
+    True) stand last — for `funccall` (Super | FuncCall), `string` (DocString | String), `class_def` (Enum | Class),
+    `typed_getitem` (… | CustomType), `function_def`, `name`, `var` the specific candidates are therefore all consulted -/
+theorem resolver_fallbacks_last :
+    (Generated.ResolverTable.table.all fun row =>
+      row.2.dropLast.all fun c => c.2 != c!"Node" && c.2 != c!"CustomType") = true := by
+  decide +kernel
+
+/-- `getattr`: `Relay.match_feature` is by definition the negation of (among others) `DeclThisVar`'s test, and
+    `dotted_name`: `ImportPath` / `DecoratorPath` ask for different parent tags — in both rows the two candidates never
+    accept the same node, so their order is immaterial -/
+theorem getattr_dotted_name_disjoint (root : AstPath.Entry) (p : AstPath.Path) (e : AstPath.Entry) :
+    ¬ (matchFeature c!"DeclThisVar" root p e = .ok true ∧ matchFeature c!"Relay" root p e = .ok true)
+    ∧ ¬ (matchFeature c!"ImportPath" root p e = .ok true ∧ matchFeature c!"DecoratorPath" root p e = .ok true) := by
+  constructor
+  · rintro ⟨h1, h2⟩
+    have e1 : matchFeature c!"DeclThisVar" root p e = isDeclThisVar root p e := by
+      simp +decide [matchFeature]
+    have e2 : matchFeature c!"Relay" root p e = (do
+        let _ ← parentTag (tagsOf root p)
+        let thisVar ← isDeclThisVar root p e
+        pure !(isDeclLocalVar (nameFeat root p e) || thisVar || inDeclClassType (nameFeat root p e)
+          || inDeclAltClassType (nameFeat root p e) || inDeclImport (nameFeat root p e))) := by
+      simp +decide [matchFeature]
+    rw [e1] at h1
+    rw [e2, h1] at h2
+    cases hp : parentTag (tagsOf root p) with
+    | error er => simp [hp, bind, Except.bind] at h2
+    | ok t => simp [hp, bind, Except.bind, pure, Except.pure] at h2
+  · rintro ⟨h1, h2⟩
+    have e1 : matchFeature c!"ImportPath" root p e = (parentTag (tagsOf root p)).map (· == c!"import_stmt") := by
+      simp +decide [matchFeature]
+    have e2 : matchFeature c!"DecoratorPath" root p e = (parentTag (tagsOf root p)).map (· == c!"decorator") := by
+      simp +decide [matchFeature]
+    rw [e1] at h1
+    rw [e2] at h2
+    cases hp : parentTag (tagsOf root p) with
+    | error er => simp [hp, Except.map] at h1
+    | ok t =>
+      simp only [hp, Except.map, Except.ok.injEq, beq_iff_eq] at h1 h2
+      rw [h1] at h2
+      revert h2; decide
 
 /-- a `var` is classified as a reference (`Var`, `ClassRef`, `ThisRef`) exactly when none of the four declaration
     patterns of `DeclableMatcher` holds -/
